@@ -1025,3 +1025,117 @@ func (t *Term) StructHash() string {
 	structHashMemo[t.id] = h
 	return h
 }
+
+// baseName cuts the run-dependent counter off a fresh name ("alloc!17" -> "alloc").
+func baseName(n string) string {
+	if i := strings.IndexByte(n, '!'); i >= 0 {
+		return n[:i]
+	}
+	return n
+}
+
+var coarseHashMemo = map[int]string{}
+
+// coarseHash is StructHash with fresh names reduced to their prefix: it does not depend on how many fresh names
+// were drawn before (i.e. on the functions verified earlier in the run), but does not tell two fresh names of the
+// same prefix apart, and leaves attached facts out (VCHash adds them per condition). It orders the traversal of
+// canonHasher, which tells fresh names apart.
+func (t *Term) coarseHash() string {
+	if h, ok := coarseHashMemo[t.id]; ok {
+		return h
+	}
+	var parts []string
+	for _, a := range t.args {
+		parts = append(parts, a.coarseHash())
+	}
+	if commutativeOps[t.op] {
+		sort.Strings(parts)
+	}
+	v := ""
+	if t.val != nil {
+		v = t.val.String()
+	}
+	sum := sha256.Sum256([]byte(t.op + "\x00" + baseName(t.name) + "\x00" + v + "\x00" + t.sort.String() + "\x00" + strings.Join(parts, ",")))
+	h := hex.EncodeToString(sum[:12])
+	coarseHashMemo[t.id] = h
+	return h
+}
+
+// canonHasher hashes the terms of one verification condition with fresh names renumbered in order of first
+// occurrence (traversal ordered by coarseHash), so the result is the same whenever the condition is the same up to
+// a renaming of fresh names.
+type canonHasher struct {
+	num  map[string]int
+	memo map[int]string
+}
+
+func newCanonHasher() *canonHasher { return &canonHasher{num: map[string]int{}, memo: map[int]string{}} }
+
+func (c *canonHasher) name(n string) string {
+	if strings.IndexByte(n, '!') < 0 {
+		return n
+	}
+	k, ok := c.num[n]
+	if !ok {
+		k = len(c.num) + 1
+		c.num[n] = k
+	}
+	return fmt.Sprintf("%s!%d", baseName(n), k)
+}
+
+func sortByCoarse(ts []*Term) []*Term {
+	out := append([]*Term{}, ts...)
+	sort.SliceStable(out, func(i, j int) bool { return out[i].coarseHash() < out[j].coarseHash() })
+	return out
+}
+
+func (c *canonHasher) hash(t *Term) string {
+	if h, ok := c.memo[t.id]; ok {
+		return h
+	}
+	nm := c.name(t.name)
+	args := t.args
+	if commutativeOps[t.op] {
+		args = sortByCoarse(args)
+	}
+	var parts []string
+	for _, a := range args {
+		parts = append(parts, c.hash(a))
+	}
+	v := ""
+	if t.val != nil {
+		v = t.val.String()
+	}
+	sum := sha256.Sum256([]byte(t.op + "\x00" + nm + "\x00" + v + "\x00" + t.sort.String() + "\x00" + strings.Join(parts, ",")))
+	h := hex.EncodeToString(sum[:12])
+	c.memo[t.id] = h
+	return h
+}
+
+// factClosure lists the facts attached to the sub-terms of the given terms and, transitively, of those facts.
+func factClosure(roots []*Term) []*Term {
+	seen := map[int]bool{}
+	isFact := map[int]bool{}
+	var facts []*Term
+	var walk func(t *Term)
+	walk = func(t *Term) {
+		if t == nil || seen[t.id] {
+			return
+		}
+		seen[t.id] = true
+		for _, a := range t.args {
+			walk(a)
+		}
+		for _, f := range TS.facts[t.id] {
+			if !isFact[f.id] {
+				isFact[f.id] = true
+				facts = append(facts, f)
+			}
+			walk(f)
+		}
+	}
+	for _, r := range roots {
+		walk(r)
+	}
+	return facts
+}
